@@ -51,6 +51,15 @@ CLAIMS = {
             "forgotten; collide() completes both records once and hands the value over; the op-code each public method publishes is executed "
             "as the same-named deque operation. This decides the statement's 'in particular' clause, not linearizability.",
             "static analysis: path table (PATHTABLE) with op-code/end derivation from fc_apply", "DESIGN.md §4 C10"),
+    "C11": ("other", "Lock-discipline rules over intrusive::MSPriorityQueue (container::MSPriorityQueue forwards to it): the slot counter is read / "
+            "changed and full / empty decided only under the size lock; the slot node is locked before the size lock is released; a heap node's "
+            "tag / value are written (assignment, std::swap) only under that node's lock; every lock is released on every path and per loop "
+            "iteration, heapify_after_pop is entered with and keeps exactly the current parent locked (loop invariant checked at back edges and at "
+            "the call site); node locks are taken parent before child; push stores into the slot the counter returned, pop empties exactly one "
+            "slot; FCPriorityQueue: op-code table, pop only when non-empty, top() then one pop(). Linearizability / priority order under "
+            "interleavings and the meaning of the tag protocol are NOT decided.",
+            "static analysis: lockset typestate on enumerated CFG paths (entry paths and paths from every loop header with the loop invariant as "
+            "initial lockset)", "DESIGN.md §4 C11"),
     "C12": ("other", "Path rules with affine comparison over every producer/consumer member of WeakRingBuffer<T> and <void>: failure only after "
             "an acquire refresh of the cached opposite counter and a re-test with the same amount; cells used only after the test came out "
             "false, addressed through buffer.mod(), accessed before the releasing counter store; published amounts (+1, per-element batch, "
@@ -158,9 +167,6 @@ CLAIMS = {
 }
 
 NA = {
-    "C11": "MSPriorityQueue's hand-over-hand node locks are array-indexed (m_Heap[i] with i evolving as i/2, 2i, 2i+1) and tagged: the path engine "
-           "havocs exactly that index relation at loop headers, so a lock-discipline rule would be vacuous or alarm on correct code; FCPriorityQueue "
-           "alone (forwarding to std::priority_queue under the combiner) is too thin to claim the property (DESIGN.md §11.3)",
     "C26": "data-dependent loops; the permutation/inverse claims need induction over n - no sound structural clause that is not a frozen "
            "fragment (DESIGN.md §4 C26)",
 }
